@@ -1,5 +1,6 @@
 import UmModel.Bytes
 import UmModel.Crc16
+import UmModel.Proto
 import UmGen.RespCfg
 import UmGen.CmdTables
 import UmGen.HostileCfg
@@ -594,6 +595,50 @@ def clusterNameChar (b : UInt8) : Bool :=
 only, and at most `CLUSTER_NAME_MAX_LENGTH` bytes (`ArrayString::from` fails, it does not panic) -/
 def clusterNameOk (s : Bytes) : Bool :=
   s.all clusterNameChar && decide (s.length ≤ Um.Gen.Hostile.CLUSTER_NAME_MAX_LENGTH)
+
+/-! ### tagged slot ranges of `UMCTL SETCLUSTER`: `RangeMap::from` (`src/common/cluster.rs`)
+
+A MIGRATING / IMPORTING slot range of a local node becomes a migration task inside
+`MetaManager::set_meta` (under the metadata lock), whose constructor builds a `RangeMap` from the
+range list.  The textual form of the command compacts the list (`RangeList::parse`); the
+compressed (serde) form hands it over as it came unless `compressedCompact`. -/
+
+def SLOT_NUM : Nat := Um.Gen.SLOT_NUM
+
+structure RangeMapRes where
+  out : HOut
+  /-- iterations of the fill loop `for slot_num in range.start()..=range.end()` -/
+  steps : Nat
+  /-- `vec![false; map_len]` -/
+  mapLen : Nat
+  /-- number of slots for which `contains_slot` answers true -/
+  contains : Nat
+  deriving DecidableEq, Repr
+
+/-- `impl From<&RangeList> for RangeMap`; `bounded` = f16e.diff applied, `oc` = overflow checks -/
+def rangeMapFrom (bounded oc : Bool) (rs : List Um.Proto.Range) : RangeMapRes :=
+  let minSlot := rs.head?.bind fun r => if r.s ≥ SLOT_NUM then none else some r.s
+  let maxSlot := rs.getLast?.bind fun r => if r.e ≥ SLOT_NUM then none else some r.e
+  let walk (r : Um.Proto.Range) : Nat :=
+    let hi := if bounded then min r.e (SLOT_NUM - 1) else r.e
+    if r.s ≤ hi then hi - r.s + 1 else 0
+  let steps := (rs.map walk).sum
+  let mk (mn len : Nat) : RangeMapRes :=
+    ⟨.reply "range-map", steps, len,
+     (List.range len).countP fun i => rs.any fun r => decide (r.s ≤ mn + i ∧ mn + i ≤ r.e)⟩
+  match minSlot, maxSlot with
+  | some mn, some mx =>
+    if mn ≤ mx then mk mn (mx - mn + 1)
+    else if bounded then mk 0 0
+    else if oc then ⟨.panic "attempt to subtract with overflow", 0, 0, 0⟩
+    else
+      -- `max_slot - min_slot + 1` wraps to more than `isize::MAX`: `vec![false; n]` panics
+      ⟨.panic "capacity overflow", 0, mx + usizeMod - mn + 1, 0⟩
+  | _, _ => mk 0 0
+
+/-- the range list as `RangeMap::from` receives it: `textual` = the command was not compressed -/
+def rangesSeen (compressedCompact textual : Bool) (rs : List Um.Proto.Range) : List Um.Proto.Range :=
+  if textual || compressedCompact then Um.Proto.compact rs else rs
 
 /-! ## `handle_cmd_ctx` for the modelled families -/
 
